@@ -1014,6 +1014,39 @@ theorem client_names (s : Service) :
         s.asyncClientName = s.name ++ "AsyncClient".toList) := by
   constructor <;> intro h <;> simp [Service.clientName, Service.asyncClientName, h]
 
+/-- Every python method the client emits for an INTERNAL (unlisted) RPC — the method itself and, for an extended-operation
+RPC, its `_unary` twin — has a stem that starts with an underscore; so has the emitted name (`snake_case` keeps a leading
+underscore).  This is the clause "unlisted RPCs get a leading underscore" for the whole surface of the RPC. -/
+theorem internal_surface_private (m : Method) (h : m.internal = true) :
+    ∀ p ∈ m.surfaceNames, p.1.head? = some '_' := by
+  have hc : m.clientMethodName.head? = some '_' := by
+    simp only [Method.clientMethodName, h, if_true]
+    generalize (if isKeyword m.name = true then m.name ++ ['_'] else m.name) = n
+    unfold makePrivate
+    split <;> simp
+  intro p hp
+  simp only [Method.surfaceNames, List.mem_cons] at hp
+  rcases hp with rfl | hp
+  · exact hc
+  · split at hp
+    · simp only [List.mem_singleton] at hp; subst hp; exact hc
+    · simp at hp
+
+/-- the surface of a public (listed) RPC is named by the RPC's own name (keyword names get a trailing underscore) -/
+theorem public_surface_names (m : Method) (h : m.internal = false) :
+    ∀ p ∈ m.surfaceNames, p.1 = (if isKeyword m.name then m.name ++ ['_'] else m.name) := by
+  intro p hp
+  simp only [Method.surfaceNames, List.mem_cons] at hp
+  rcases hp with rfl | hp
+  · simp [Method.clientMethodName, h]
+  · split at hp
+    · simp only [List.mem_singleton] at hp; subst hp; simp [Method.clientMethodName, h]
+    · simp at hp
+
+/-- an extended-operation RPC has exactly two surfaces, an ordinary RPC one -/
+theorem surface_count (m : Method) : m.surfaceNames.length = if m.ext.isSome then 2 else 1 := by
+  unfold Method.surfaceNames; split <;> simp
+
 /-- Link to the source: `Pinned.Funcs.service_client_name` / `service_async_client_name` are the Lean translations of
 `gapic/schema/wrappers.py: Service.client_name / async_client_name` (harness/pyfun2lean.py; kept equal to the
 current source by the bridge lemmas `Bridge.Funcs.service_client_name`, `…service_async_client_name`).  The model's
